@@ -55,11 +55,16 @@ var hC05Undef = []hC05Tmpl{
 	{id: "comdat-func", pre: "$a = comdat any\ndefine void @f() comdat($", post: ") {\n\tret void\n}\n", defined: "a"},
 	{id: "metadata-func-attachment", pre: "define void @f() !dbg !", post: " {\n\tret void\n}\n!0 = distinct !DISubprogram(name: \"f\")\n", defined: "0", digit: true},
 	{id: "metadata-inst-attachment", pre: "define void @f() {\n\tret void, !dbg !", post: "\n}\n!0 = !{}\n!1 = !{}\n", defined: "01", digit: true},
+	// a faulty field of a function header that is followed by further, valid fields
+	{id: "comdat-then-personality", pre: "$a = comdat any\ndeclare i32 @p(...)\ndefine void @f() comdat($", post: ") personality i8* bitcast (i32 (...)* @p to i8*) {\n\tret void\n}\n", defined: "a"},
+	{id: "prefix-then-prologue", pre: "@a = global i32 0\n@z = global i32 1\ndefine void @f() prefix i32* @", post: " prologue i32* @z {\n\tret void\n}\n", defined: "a"},
+	{id: "prologue-then-personality", pre: "@a = global i32 0\ndeclare i32 @p(...)\ndefine void @f() prologue i32* @", post: " personality i8* bitcast (i32 (...)* @p to i8*) {\n\tret void\n}\n", defined: "a"},
+	{id: "comdat-then-prefix", pre: "$a = comdat any\n@z = global i32 1\ndefine void @f() comdat($", post: ") prefix i32* @z {\n\tret void\n}\n", defined: "a"},
 	{id: "attrgroup", pre: "define void @f() #", post: " {\n\tret void\n}\nattributes #0 = { nounwind }\n", defined: "0", digit: true, accept: true},
 }
 
-var hC05UndefIDs = [...]string{"C05.type.undefined-is-error", "C05.type-alias.undefined-is-error", "C05.global.undefined-is-error", "C05.callee.undefined-is-error", "C05.local.undefined-is-error", "C05.label.undefined-is-error", "C05.phi-pred.undefined-is-error", "C05.comdat.undefined-is-error", "C05.blockaddress-func.undefined-is-error", "C05.blockaddress-block.undefined-is-error", "C05.uselistorder.undefined-is-error", "C05.uselistorder-blockaddress.undefined-is-error", "C05.uselistorder-bb.undefined-is-error", "C05.metadata-attachment.undefined-is-error", "C05.metadata-tuple.undefined-is-error", "C05.metadata-named.undefined-is-error", "C05.metadata-di-field.undefined-is-error", "C05.blockaddress-declared-func.undefined-is-error", "C05.blockaddress-other-func-label.undefined-is-error", "C05.blockaddress-operand.undefined-is-error", "C05.blockaddress-metadata.undefined-is-error", "C05.local-other-func.undefined-is-error", "C05.label-other-func.undefined-is-error", "C05.alias-target.undefined-is-error", "C05.ifunc-resolver.undefined-is-error", "C05.personality.undefined-is-error", "C05.invoke-label.undefined-is-error", "C05.switch-label.undefined-is-error", "C05.type-in-signature.undefined-is-error", "C05.comdat-func.undefined-is-error", "C05.metadata-func-attachment.undefined-is-error", "C05.metadata-inst-attachment.undefined-is-error", "C05.attrgroup.undefined-is-materialised"}
-var hC05DefIDs = [...]string{"C05.type.defined-is-accepted", "C05.type-alias.defined-is-accepted", "C05.global.defined-is-accepted", "C05.callee.defined-is-accepted", "C05.local.defined-is-accepted", "C05.label.defined-is-accepted", "C05.phi-pred.defined-is-accepted", "C05.comdat.defined-is-accepted", "C05.blockaddress-func.defined-is-accepted", "C05.blockaddress-block.defined-is-accepted", "C05.uselistorder.defined-is-accepted", "C05.uselistorder-blockaddress.defined-is-accepted", "C05.uselistorder-bb.defined-is-accepted", "C05.metadata-attachment.defined-is-accepted", "C05.metadata-tuple.defined-is-accepted", "C05.metadata-named.defined-is-accepted", "C05.metadata-di-field.defined-is-accepted", "C05.blockaddress-declared-func.defined-is-accepted", "C05.blockaddress-other-func-label.defined-is-accepted", "C05.blockaddress-operand.defined-is-accepted", "C05.blockaddress-metadata.defined-is-accepted", "C05.local-other-func.defined-is-accepted", "C05.label-other-func.defined-is-accepted", "C05.alias-target.defined-is-accepted", "C05.ifunc-resolver.defined-is-accepted", "C05.personality.defined-is-accepted", "C05.invoke-label.defined-is-accepted", "C05.switch-label.defined-is-accepted", "C05.type-in-signature.defined-is-accepted", "C05.comdat-func.defined-is-accepted", "C05.metadata-func-attachment.defined-is-accepted", "C05.metadata-inst-attachment.defined-is-accepted", "C05.attrgroup.defined-is-accepted"}
+var hC05UndefIDs = [...]string{"C05.type.undefined-is-error", "C05.type-alias.undefined-is-error", "C05.global.undefined-is-error", "C05.callee.undefined-is-error", "C05.local.undefined-is-error", "C05.label.undefined-is-error", "C05.phi-pred.undefined-is-error", "C05.comdat.undefined-is-error", "C05.blockaddress-func.undefined-is-error", "C05.blockaddress-block.undefined-is-error", "C05.uselistorder.undefined-is-error", "C05.uselistorder-blockaddress.undefined-is-error", "C05.uselistorder-bb.undefined-is-error", "C05.metadata-attachment.undefined-is-error", "C05.metadata-tuple.undefined-is-error", "C05.metadata-named.undefined-is-error", "C05.metadata-di-field.undefined-is-error", "C05.blockaddress-declared-func.undefined-is-error", "C05.blockaddress-other-func-label.undefined-is-error", "C05.blockaddress-operand.undefined-is-error", "C05.blockaddress-metadata.undefined-is-error", "C05.local-other-func.undefined-is-error", "C05.label-other-func.undefined-is-error", "C05.alias-target.undefined-is-error", "C05.ifunc-resolver.undefined-is-error", "C05.personality.undefined-is-error", "C05.invoke-label.undefined-is-error", "C05.switch-label.undefined-is-error", "C05.type-in-signature.undefined-is-error", "C05.comdat-func.undefined-is-error", "C05.metadata-func-attachment.undefined-is-error", "C05.metadata-inst-attachment.undefined-is-error", "C05.comdat-then-personality.undefined-is-error", "C05.prefix-then-prologue.undefined-is-error", "C05.prologue-then-personality.undefined-is-error", "C05.comdat-then-prefix.undefined-is-error", "C05.attrgroup.undefined-is-materialised"}
+var hC05DefIDs = [...]string{"C05.type.defined-is-accepted", "C05.type-alias.defined-is-accepted", "C05.global.defined-is-accepted", "C05.callee.defined-is-accepted", "C05.local.defined-is-accepted", "C05.label.defined-is-accepted", "C05.phi-pred.defined-is-accepted", "C05.comdat.defined-is-accepted", "C05.blockaddress-func.defined-is-accepted", "C05.blockaddress-block.defined-is-accepted", "C05.uselistorder.defined-is-accepted", "C05.uselistorder-blockaddress.defined-is-accepted", "C05.uselistorder-bb.defined-is-accepted", "C05.metadata-attachment.defined-is-accepted", "C05.metadata-tuple.defined-is-accepted", "C05.metadata-named.defined-is-accepted", "C05.metadata-di-field.defined-is-accepted", "C05.blockaddress-declared-func.defined-is-accepted", "C05.blockaddress-other-func-label.defined-is-accepted", "C05.blockaddress-operand.defined-is-accepted", "C05.blockaddress-metadata.defined-is-accepted", "C05.local-other-func.defined-is-accepted", "C05.label-other-func.defined-is-accepted", "C05.alias-target.defined-is-accepted", "C05.ifunc-resolver.defined-is-accepted", "C05.personality.defined-is-accepted", "C05.invoke-label.defined-is-accepted", "C05.switch-label.defined-is-accepted", "C05.type-in-signature.defined-is-accepted", "C05.comdat-func.defined-is-accepted", "C05.metadata-func-attachment.defined-is-accepted", "C05.metadata-inst-attachment.defined-is-accepted", "C05.comdat-then-personality.defined-is-accepted", "C05.prefix-then-prologue.defined-is-accepted", "C05.prologue-then-personality.defined-is-accepted", "C05.comdat-then-prefix.defined-is-accepted", "C05.attrgroup.defined-is-accepted"}
 
 // VfC05_Undefined
 //
